@@ -44,6 +44,22 @@ def h_delta(ctx, n, i):
     ctx.claim('finite', finite(ctx, Y))
 
 
+def h_delta_array_reuse(ctx):
+    """The position given as an integer ndarray with negative entries, reused for a
+    second tensor of another shape: both tensors have v at the position counted
+    from the end of *their* shape, and the caller's array is not changed."""
+    v = ctx.real('v')
+    i = np.array([-1, -2, -1])
+    i0 = i.copy()
+    for n in ([3, 3, 2], [4, 5, 6], [2, 2, 2]):
+        Y = teneva.delta(n, i, v)
+        F = ref_full(Y)
+        pos = tuple(int(k) if k >= 0 else m + int(k) for k, m in zip(i0, n))
+        ctx.claim('v_at_i', ctx.eq(F[pos], v))
+        ctx.claim('zero_elsewhere', ctx.all_([ctx.eq(F[j], 0) for j in multi_indices(n) if j != pos]))
+    ctx.claim('position_array_untouched', bool(np.array_equal(i, i0)))
+
+
 def h_vector_delta(ctx, q):
     """Symbolic integer position in [-2^q, 2^q): bits by forking."""
     i = ctx.integer('i')
@@ -205,6 +221,11 @@ def instances(tier):
         out.append({'func': 'h_const_conflict', 'params': {'n': n, 'zeros_': [list(idx[1])], 'keep': list(idx[1])}})
     for n, i in [([2, 3], [1, 2]), ([2, 3], [-1, 0]), ([2, 2, 3], [0, -1, -2]), ([1, 2], [0, 1])]:
         out.append({'func': 'h_delta', 'params': {'n': n, 'i': i}})
+    out.append({'func': 'h_delta_array_reuse', 'params': {}})
+    # several listed zeros that agree with the protected index in many modes (satisfiable requests)
+    for n, zl, keep in [([3, 3, 3], [[1, 1, 0], [1, 1, 2]], [1, 1, 1]), ([2, 2, 2], [[1, 1, 0], [1, 0, 1], [0, 1, 1]], [1, 1, 1]),
+                        ([3, 2], [[1, 0], [1, 1], [2, 1]], [0, 1])]:
+        out.append({'func': 'h_const', 'params': {'n': n, 'zeros_': zl, 'keep': keep}})
     for q in ([1, 2, 3] if quick else [1, 2, 3, 4, 5, 6]):
         out.append({'func': 'h_vector_delta', 'params': {'q': q}})
         out.append({'func': 'h_vector_delta_range', 'params': {'q': q}})
